@@ -167,7 +167,7 @@ def c02(tier, seed):
     text, names = props.gen_data(tier)
     # exclusion also rests on happylock never releasing a lock it does not hold (in that mode): a foreign or
     # wrong-mode release lets another thread into somebody's critical section
-    acq_text, acq_names = props.gen_acq(tier, envs=("a",), kinds=lambda sh: not sh.name.startswith(("s_", "po_")) and sh.n() >= 2)
+    acq_text, acq_names = props.gen_acq(tier, envs=("a",), kinds=lambda sh: (not sh.name.startswith("s_")) and (sh.n() >= 2 or sh.name.startswith("po_")))
     return checks.run_mirsym_property(
         "C02", tier, seed, {"h_data.rs": text, "h_acq.rs": acq_text},
         codes("M_DATA", "M_NOT_HELD_IN_SECTION", "M_HELD_AFTER_ERR", "M_BAD_RELEASE", "M_NOT_ALL_HELD", "M_SELF_WAIT"),
